@@ -657,3 +657,13 @@ SUBCHECKS = [
              rule="CliqueColoring(n,k,c) for all triples with <=20 (thorough 22) variables; oracle: clique map total/functional/injective/edge-forcing, colouring total/functional/proper; sat iff k<=n, k<=c, (c>=1 or n=0); " + NT,
              required_labels=['sat', 'unsat', 'zero-parameter', 'k=c+1']),
 ]
+
+
+# ---------------------------------------------------------------------------
+# the same cases after other work in the same process
+
+from vlib import after as _after   # noqa: E402
+
+SUBCHECKS.append(_after.make(SUBCHECKS, inner=['php', 'gphp', 'gphp', 'bphp', 'rphp', 'count', 'matching', 'subsetcard', 'subsetcard', 'cliquecoloring'],
+                             as_prefix=['gphp', 'matching', 'subsetcard', 'php'],
+                             required_labels=['after:cli', 'after:bipartite', 'after:case', 'then:gphp', 'then:subsetcard', 'then:matching']))
